@@ -90,7 +90,17 @@ fn declare_import(
     for decl in program.declarations() {
         let defn = Definition::External(External::new(decl.node()));
         let entry = Entry::new(decl.ident(), import.qualifier());
-        env.declare(entry, defn);
+        // Two imports that bring in different definitions under the same name are ambiguous:
+        // which one wins must not depend on the order of the imports.
+        if let Some(previous) = env.declare(entry, defn.clone()) {
+            if previous != defn {
+                return Err(
+                    Error::new(Kind::InvalidIdentifier, "identifier already exists")
+                        .with(&decl.ident())
+                        .at(import.node().span()),
+                );
+            }
+        }
     }
     Ok(())
 }
